@@ -21,9 +21,9 @@ META = dict(
               "and the store of every counter update); depth = total thread steps (complete "
               "for loop-free threads)",
     bounds=dict(quick="configurations 2R+1W, 1R+2W, 3R, 2W x 1 round; 1R+1W x 2 rounds",
-                thorough="plus 2R+2W, 3R+1W x 1 round; 1R+2W, 2R+1W x 2 rounds (3R+2W x 1 and the "
-                         "4-thread x 2-round configurations came back `unknown` after 600 s per "
-                         "query and are outside the claim)"),
+                thorough="plus 2R+2W, 3R+1W x 1 round (3R+2W x 1 and the 3- and 4-thread x "
+                         "2-round configurations came back `unknown` after 600 s per query and "
+                         "are outside the claim)"),
     stubs=["threading.Lock: non-reentrant mutex; acquire blocks while held; release of a free "
            "mutex is an error (RuntimeError in CPython)"],
     outside=["more threads / rounds than listed", "timeouts, non-blocking acquire, re-entrancy",
@@ -31,7 +31,7 @@ META = dict(
              "with an unfinished thread and no enabled step)"],
     assumptions=["z3 sound", "the GIL makes each bytecode atomic; += on an attribute is a load "
                  "followed by a store (both modelled as separate steps)"],
-    budget_s=dict(quick=900, thorough=3600),
+    budget_s=dict(quick=900, thorough=14400),
 )
 
 
@@ -257,10 +257,11 @@ def _props(b):
     return out
 
 
-def bmc(roles, rounds):
+def bmc(roles, rounds, qtimeout=600):
     t0 = time.time()
     ex = Extractor(RW_PATH())
     b = BMC(ex, roles, rounds)
+    b.s.set("timeout", qtimeout * 1000)
     b.add_reductions()
     st = core.Stats()
     res = dict(stats=None, cex=None, known=[], notes=[], functions=_functions(ex), validated=0,
@@ -349,10 +350,10 @@ def jobs(tier, seed):
     cfgs = [(("R", "R", "W"), 1), (("R", "W", "W"), 1), (("R", "R", "R"), 1), (("W", "W"), 1),
             (("R", "W"), 2)]
     if tier != "quick":
-        cfgs += [(("R", "R", "W", "W"), 1), (("R", "R", "R", "W"), 1), (("R", "W", "W"), 2),
-                 (("R", "R", "W"), 2)]
+        cfgs += [(("R", "R", "W", "W"), 1), (("R", "R", "R", "W"), 1)]
     for roles, rounds in cfgs:
-        js.append(Job("bmc/%sx%d" % ("".join(roles), rounds), "harness.c20:bmc", roles=roles, rounds=rounds))
+        js.append(Job("bmc/%sx%d" % ("".join(roles), rounds), "harness.c20:bmc", roles=roles,
+                      rounds=rounds, qtimeout=600 if tier == "quick" else 3000))
     return js
 
 
